@@ -1,6 +1,7 @@
 // hubsim: correspondence harness for the sentinel hub (T-corr).
 //
 //	hubsim run  < ops            execute an operation file against the real application
+//	hubsim run -tx < ops         the same, every `tx` of a keyed sender as a signed transaction through DeliverTx
 //	hubsim gen  -seed N -ops K   generate a history adaptively (reads the real state) and print the ops
 package main
 
@@ -21,9 +22,11 @@ func main() {
 	case "run":
 		fs := flag.NewFlagSet("run", flag.ExitOnError)
 		noDump := fs.Bool("nodump", false, "do not print state dumps")
+		txMode := fs.Bool("tx", false, "tx mode: signed transactions through DeliverTx and the ante handler (sim/txmode.go)")
 		fs.Parse(os.Args[2:])
 		r := sim.NewRunner(os.Stdout)
 		r.NoDump = *noDump
+		r.TxMode = *txMode
 		if err := r.Run(os.Stdin); err != nil {
 			r.Out.Flush()
 			fmt.Fprintln(os.Stderr, "hubsim:", err)
